@@ -559,29 +559,48 @@ pub fn dec_json(s: &str) -> Value {
     json!({"nan": false, "neg": neg && !digits.is_empty(), "d": digits, "e": e})
 }
 
-trait Show {
+trait Show: Sized {
     fn show(&self) -> String;
+    /// the type's own least / greatest value (independent of the library's NumericValueDefaults)
+    fn tmin() -> Self;
+    fn tmax() -> Self;
 }
 macro_rules! show_display {
-    ($($t:ty),*) => { $(impl Show for $t { fn show(&self) -> String { format!("{}", self) } })* };
+    ($($t:ty),*) => { $(impl Show for $t {
+        fn show(&self) -> String { format!("{}", self) }
+        fn tmin() -> Self { <$t>::MIN }
+        fn tmax() -> Self { <$t>::MAX }
+    })* };
 }
 show_display!(u8, i16, i64, f32, f64);
 impl Show for scpi::units::Time {
     fn show(&self) -> String {
         format!("{}", self.value)
     }
+    fn tmin() -> Self {
+        scpi::units::Time::new::<scpi::units::uom::si::time::second>(f32::MIN)
+    }
+    fn tmax() -> Self {
+        scpi::units::Time::new::<scpi::units::uom::si::time::second>(f32::MAX)
+    }
 }
 
 fn nv_rows<T>(tyname: &str, elems: &[&[u8]], configs: &[(T, T, Option<T>)], out: &mut Out)
 where
-    T: for<'a> TryFrom<Token<'a>, Error = Error> + PartialOrd + Copy + Show,
+    T: for<'a> TryFrom<Token<'a>, Error = Error> + PartialOrd + Copy + Show + scpi_contrib::scpi1999::NumericValueDefaults,
 {
     for lit in elems {
         let Some(t) = first_token(lit) else { continue };
         let (kind, _) = kind_of(&t);
         for (ci, (min, max, def)) in configs.iter().enumerate() {
             // several ways of configuring the builder (call order is part of the configuration space)
-            for order in 0..4u32 {
+            for order in 0..6u32 {
+                // orders 4 and 5 start from NumericValue::build(): the bound that is not set is the type's own
+                let (emin, emax) = match order {
+                    4 => (T::tmin(), *max),
+                    5 => (*min, T::tmax()),
+                    _ => (*min, *max),
+                };
                 let r = catch(std::panic::AssertUnwindSafe(|| {
                     let nv = NumericValue::<T>::try_from(t);
                     match nv {
@@ -604,7 +623,11 @@ where
                                 (0, None) => b.finish(),
                                 (1, None) => b.max(*max).min(*min).finish(),
                                 (2, None) => nv.finish_with_fallback(*max, *min),
-                                (_, None) => b.min(*min).finish(),
+                                (3, None) => b.min(*min).finish(),
+                                (4, Some(d)) => nv.build().max(*max).default(*d).finish(),
+                                (4, None) => nv.build().max(*max).finish(),
+                                (5, Some(d)) => nv.build().default(*d).min(*min).finish(),
+                                (_, None) => nv.build().min(*min).finish(),
                                 _ => unreachable!(),
                             };
                             (variant, tv, fin)
@@ -614,11 +637,11 @@ where
                 let blank = dec_json("0");
                 let row = match r {
                     Err(_) => json!({"t": "nv", "ty": tyname, "kind": kind, "lit": bytes_json(lit_of(&t, lit)), "src": lossy(lit), "cfg": ci, "order": order,
-                                     "variant": "panic", "tv": blank, "min": dec_json(&min.show()), "max": dec_json(&max.show()), "hasdef": def.is_some(),
+                                     "variant": "panic", "tv": blank, "min": dec_json(&emin.show()), "max": dec_json(&emax.show()), "hasdef": def.is_some(),
                                      "def": blank, "final": {"k": "err", "code": 99999, "v": blank}}),
                     Ok((variant, tv, fin)) => json!({"t": "nv", "ty": tyname, "kind": kind, "lit": bytes_json(lit_of(&t, lit)), "src": lossy(lit), "cfg": ci, "order": order,
                                      "variant": variant, "tv": tv.map(|v| dec_json(&v.show())).unwrap_or(blank.clone()),
-                                     "min": dec_json(&min.show()), "max": dec_json(&max.show()), "hasdef": def.is_some(),
+                                     "min": dec_json(&emin.show()), "max": dec_json(&emax.show()), "hasdef": def.is_some(),
                                      "def": def.map(|d| dec_json(&d.show())).unwrap_or(blank.clone()),
                                      "final": match fin { Ok(v) => json!({"k": "ok", "code": 0, "v": dec_json(&v.show())}),
                                                           Err(e) => json!({"k": "err", "code": e.get_code(), "v": blank}) }}),
